@@ -316,6 +316,11 @@ class CurveFamily:
                         if name == "normalize" and P is None:
                             continue
                         yield dict(group=g, args=[enc_pt(cm.to_rep(g, P, rng))])
+                    if name == "is_inf" and cm.optimized:
+                        # is_inf is a statement about z alone: triples that are not curve points, with zero x and/or y
+                        z_, o_, r_ = cm.zero(g), cm.one(g), cm.rand_f(g, rng)
+                        for t in ((z_, z_, o_), (z_, z_, r_), (z_, o_, r_), (r_, z_, o_), (z_, z_, z_), (r_, z_, z_)):
+                            yield dict(group=g, args=[enc_pt(t)])
                 elif name == "is_on_curve":
                     for P in cands:
                         yield dict(group=g, args=[enc_pt(cm.to_rep(g, P, rng))], on=True)
@@ -391,7 +396,7 @@ class CurveFamily:
                 return None
             elif name == "is_inf":
                 res = f(args[0])
-                want = A(args[0]) is None
+                want = (args[0] is None) if not cm.optimized else (args[0][2] == args[0][2].__class__.zero())
                 return None if bool(res) == want else dict(why="is_inf", observed=bool(res), expected=want)
             elif name == "is_on_curve":
                 res = f(args[0], b)
@@ -410,6 +415,10 @@ class CurveFamily:
             return dict(why="raised", observed=f"{type(e).__name__}: {e}", expected="a point")
         if not rep_ok(res):
             return dict(why="result shape", observed=repr(res)[:200], expected="point representation")
+        if res is not None and name in ("add", "double", "neg", "multiply") and any(type(c) is not F for c in res):
+            # also for a result at infinity: feeding it back into add/double must work in the operands' field
+            return dict(why=f"{name}: coordinates of the result are not elements of the operands' field class",
+                        observed=[type(c).__name__ for c in res], expected=F.__name__)
         got = A(res)
         if not aff_eq(got, want):
             return dict(why=f"abs({name}(...)) differs from the affine law", observed=enc_pt(got), expected=enc_pt(want))
@@ -610,6 +619,9 @@ class SecpFamily:
             elif name == "inv":
                 for a in [0, 1, 2, P - 1, rng.randrange(P), rng.randrange(P)]:
                     yield dict(args=[a, P])
+                for n_ in (P, self.N):
+                    for a in [n_ + 1, n_ + 2, 2 * n_ + 3, n_ * n_ - 1, rng.randrange(n_, 2 ** 300), -1, -2, -n_ - 1, -rng.randrange(2, 2 ** 200)]:
+                        yield dict(args=[a, n_])
                 for a in [0, 1, self.N - 1, rng.randrange(self.N)]:
                     yield dict(args=[a, self.N])
 
@@ -629,6 +641,9 @@ class SecpFamily:
             return (x * zi * zi % P, y * zi * zi * zi % P)
 
         def absa(t):
+            # affine results must be canonical: integers in [0, P), exactly (no reduction here)
+            if not (isinstance(t[0], int) and isinstance(t[1], int) and 0 <= t[0] < P and 0 <= t[1] < P):
+                return ("non-canonical", t[0], t[1])
             return None if (t[0], t[1]) == (0, 0) else (t[0], t[1])
 
         def on(A):
